@@ -235,3 +235,41 @@ func Harness_C04_extensionDup() {
 	}
 	zzsym.Reach("c04.extdup")
 }
+
+func Setup_C04_serializePanic() { probeSetup() }
+
+// Harness_C04_serializePanic: a custom scalar panics while the response is
+// being serialised (after earlier fields were written): that response fails
+// as a whole (the panic reaches the transport, which answers with an error
+// body - C04 servePanic), and the next operation served by the process is
+// answered exactly as if nothing had happened.
+func Harness_C04_serializePanic() {
+	first := mustLoad(`{ me { id name } odds users { id } }`)
+	w1 := newWorld(0, false)
+	boom, fine := "boom-out", "fine"
+	w1.outs["/Query.odds"] = ref.Out{Strs: []*string{&fine, &boom}}
+	panicked := func() (p bool) {
+		defer func() {
+			if recover() != nil {
+				p = true
+			}
+		}()
+		runOp(w1, first, first.Operations[0], nil)
+		return false
+	}()
+	zzsym.Assert(panicked, "a panic while serialising reaches the transport (which turns it into an error response)")
+	fi := []int{0, 5, 13}[zzsym.Choice("next", 3)]
+	fam := c01Families[fi]
+	vars := map[string]any{}
+	for _, v := range fam.flags {
+		vars[v] = true
+	}
+	doc := mustLoad(fam.query)
+	w := newWorld(0, false)
+	got := runOp(w, doc, doc.Operations[0], vars)
+	want := ref.Execute(pSchema, doc, doc.Operations[0], vars, w)
+	zzsym.Event("data", got.data)
+	zzsym.Assert(len(got.resps) == 1 && got.data == want.Data && sameErrors(got.errs, want.Errors), "the operation served after a failed serialisation is answered as if nothing had happened")
+	zzsym.Assert(w.recovers == 0, "no recover hook for a request in which nothing failed")
+	zzsym.Reach("c04.serializepanic")
+}
